@@ -192,3 +192,67 @@ Example ex_slash :
   (* a slash of an empty account takes nothing: no event, no election *)
   run_epoch (mk false [(14, 800, None)]) = ESkip.
 Proof. vm_compute. repeat split; reflexivity. Qed.
+
+(* ---------- MinPoolSize is checked on the de-duplicated pool; MaxNodes ---------- *)
+Lemma dedup_count lim : forall l seen e,
+  cnt_of e seen <= lim -> count_node_ent e (dedup lim seen l) + cnt_of e seen <= lim.
+Proof.
+  induction l as [|x r IH]; intros seen e Hs; cbn [dedup].
+  - unfold count_node_ent. cbn. lia.
+  - destruct (lim <=? cnt_of (n_ent x) seen) eqn:El; [apply IH; exact Hs|].
+    rewrite count_node_ent_cons.
+    assert (Hs' : cnt_of e (aset (n_ent x) (cnt_of (n_ent x) seen + 1) seen) <= lim).
+    { rewrite cnt_of_aset. destruct (n_ent x =? e) eqn:E; [lia|exact Hs]. }
+    specialize (IH (aset (n_ent x) (cnt_of (n_ent x) seen + 1) seen) e Hs').
+    rewrite cnt_of_aset in IH. destruct (n_ent x =? e) eqn:E; cbn [ind].
+    + assert (n_ent x = e) by lia. subst e. lia.
+    + lia.
+Qed.
+
+(* the candidate pool of a role IS the per-entity de-duplicated one *)
+Theorem role_pool_deduplicated p ents vents epoch rt src cs cnodes lim e :
+  c_max cs = Some lim -> 0 < lim ->
+  count_node_ent e (role_pool p ents vents epoch rt src cs cnodes) <= lim.
+Proof.
+  intros Hc Hl. unfold role_pool. rewrite Hc.
+  assert (E : (0 <? lim) = true) by lia. rewrite E.
+  assert (H0 : cnt_of e (@nil (N * N)) <= lim) by (unfold cnt_of; cbn; lia).
+  destruct src as [tbl|db eb].
+  - pose proof (dedup_count lim (filter (role_eligible p ents vents epoch rt (src_haspi (ByTable tbl)) cs) cnodes) [] e H0). lia.
+  - pose proof (dedup_count lim (vrf_sort db (filter (role_eligible p ents vents epoch rt (src_haspi (ByBeta db eb)) cs) cnodes)) [] e H0). lia.
+Qed.
+
+(* an elected committee's candidate pool AFTER per-entity de-duplication has at
+   least MinPoolSize nodes, for each role that is filled; and no entity has
+   more than MaxNodes members in a role (workers and backups each) *)
+Theorem committee_pool_and_limits fv p ents vents epoch rt cnodes blocked sw sb ms :
+  elect_committee fv p ents vents epoch rt cnodes blocked sw sb = Some ms ->
+  min_pool (r_cw rt) <= len (role_pool p ents vents epoch rt sw (r_cw rt) cnodes) /\
+  (r_bsize rt <> 0 -> min_pool (r_cb rt) <= len (role_pool p ents vents epoch rt sb (r_cb rt) cnodes)) /\
+  exists w b,
+    ms = map (fun n => (ROLE_WORKER, n_id n)) w ++ map (fun n => (ROLE_BACKUP, n_id n)) b /\
+    (forall lim, c_max (r_cw rt) = Some lim -> forall e, count_node_ent e w <= lim) /\
+    (forall lim, c_max (r_cb rt) = Some lim -> forall e, count_node_ent e b <= lim).
+Proof.
+  intros H. apply committee_sound in H.
+  destruct H as [_ [_ [_ [_ [w [b [-> [[_ [_ [Hwl Hwm]]] Hb]]]]]]]].
+  split; [exact Hwm|].
+  destruct (r_bsize rt =? 0) eqn:E.
+  - split; [intros; lia|]. exists w, b. split; [reflexivity|]. split; [exact Hwl|].
+    subst b. intros lim _ e. unfold count_node_ent. cbn. lia.
+  - destruct Hb as [_ [_ [Hbl Hbm]]]. split; [intros _; exact Hbm|].
+    exists w, b. split; [reflexivity|]. split; assumption.
+Qed.
+
+(* the boundary: entity 11 has three eligible nodes, entity 12 one; MaxNodes 1,
+   group size 2.  Raw pool 4, de-duplicated pool 2: MinPoolSize 3 => no
+   committee, MinPoolSize 2 => committee. *)
+Example ex_minpool_after_dedup :
+  let mkn := fun id ent => mkNode id ent (id + 100) 1 9 0 0 [(77, 4294967296, None)] [] in
+  let nodes := [mkn 21 11; mkn 22 11; mkn 23 11; mkn 24 12] in
+  let rt := fun m => mkRt 77 true false 2 0 [(4294967296, 0)] (mkCs false (Some 1) (Some m)) (mkCs false None None) 0 in
+  let tbl := ByTable [[]; [0]; [1; 0]; [2; 0; 1]; [3; 1; 0; 2]] in
+  let ents := [mkEnt 11 5000 []; mkEnt 12 5000 []] in
+  elect_committee true (mkParams 1 2 1 false false) ents [] 7 (rt 3) nodes false tbl tbl = None /\
+  elect_committee true (mkParams 1 2 1 false false) ents [] 7 (rt 2) nodes false tbl tbl = Some [(1, 24); (1, 21)].
+Proof. vm_compute. split; reflexivity. Qed.
